@@ -196,7 +196,12 @@ def runOp : P String := do
       | "R" => Outcome.ranks <$> pMany n pNum
       | "S" => Outcome.scores <$> pMany n pNum
       | t => throw s!"bad-outcome {t}"
-    let lv : Leaves HP.BF := if lvTok == "e" then exactLeaves else codeLeaves
+    -- exact leaves: evaluated through HP.leaves (at |x|, using that V~ is odd and W~ even in x) so that
+    -- differences of upper tails do not cancel at 192 bits
+    let hpExact : Leaves HP.BF :=
+      { v := fun x t => (HP.leaves 128 x t).v, w := fun x t => (HP.leaves 128 x t).w,
+        vt := fun x t => (HP.leaves 128 x t).vt, wt := fun x t => (HP.leaves 128 x t).wt }
+    let lv : Leaves HP.BF := if lvTok == "e" then hpExact else codeLeaves
     let c := HP.ofFloat
     let P : Params HP.BF := { beta := c beta, kappa := c kappa, tau := c tau, limitSigma := ls, gamma := convGamma c g }
     let res := rate k lv P PyNum.le PyNum.neg (convTeams c teams) outcome { tau := tauO.map c, limitSigma := lsO }
